@@ -570,6 +570,9 @@ class RandMaxVar(MaxVar):
             return pt_eval.ravel()
 
         def _evaluate_logpdf(theta):
+            # the acquisition density lives inside the bounds of the surrogate model
+            if any(th < b[0] or th > b[1] for th, b in zip(np.ravel(theta), gp.bounds)):
+                return -np.inf
             val_pdf = self.evaluate(theta)
             if val_pdf == 0:
                 return -np.inf
